@@ -59,6 +59,39 @@ def log(*a):
 
 
 # --------------------------------------------------------------------------- discovery
+class CleanPanic:
+    """allow=@PANIC@ / must_fail=@PANIC@ : the failing check is a CLEAN, PROFILE-INDEPENDENT PANIC raised by the code under test, wherever it
+    sits -- an assert!/panic!/expect in any function of the crate, or one of std's panic helpers the crate reaches through safe code
+    (Option::expect, assert_eq!, slice indexing, Vec's capacity overflow).  Which function hosts the assertion is not part of any
+    property (moving an assert into a helper is a benign refactor).  NOT a clean panic: arithmetic-overflow checks ("attempt to ..":
+    they vanish in release builds), the crate's debug assertions ("internal: .."; the out-of-contract families are also run with
+    -C debug-assertions=off), anything located in harness code, memory-safety checks (their ids are not of class `assertion`)."""
+    pattern = "@PANIC@"
+    CRATE_FILE = re.compile(r"(^|/)src/(bytes|bytes_mut|lib|serde|buf/[a-z_]+|fmt/[a-z_]+)\.rs:\d+")
+    STD_FN = re.compile(r" in function (core::option::expect_failed|core::result::unwrap_failed|core::panicking::assert_failed(_inner)?|"
+                        r"core::panicking::panic_bounds_check|core::slice::index::slice_index_fail|core::slice::index::slice_\w+_fail|"
+                        r"alloc::raw_vec::capacity_overflow|alloc::raw_vec::handle_error|core::slice::<impl \[T\]>::copy_from_slice::len_mismatch_fail)")
+    NOT_DESC = re.compile(r"^attempt to |RETURNED|VACUITY|^internal:|unwinding assertion|unreachable|^observed")
+
+    def search(self, key, check=None):
+        desc, _, loc = key.partition(" @ ")
+        if check is not None and ".assertion." not in check["id"]:
+            return None
+        if self.NOT_DESC.search(desc):
+            return None
+        if self.STD_FN.search(loc):
+            return True
+        if "verif_incrate" in loc or "/verif/" in loc:
+            return None
+        if self.CRATE_FILE.search(loc.split(" in function ")[0]):
+            return True
+        return None
+
+
+def _search(pat, key, check):
+    return pat.search(key, check) if isinstance(pat, CleanPanic) else pat.search(key)
+
+
 class Harness:
     def __init__(self, name, where, meta, unwind, src_file, line):
         self.name = name          # full kani harness path
@@ -66,8 +99,8 @@ class Harness:
         self.props = meta.get("props", "").split(",") if meta.get("props") else []
         self.tier = meta.get("tier", "quick")
         self.flags = set(f for f in meta.get("flags", "").split(",") if f)
-        self.allow = [re.compile(meta["allow"])] if meta.get("allow") else []
-        self.must_fail = [re.compile(meta["must_fail"])] if meta.get("must_fail") else []
+        self.allow = [CleanPanic() if meta["allow"] == "@PANIC@" else re.compile(meta["allow"])] if meta.get("allow") else []
+        self.must_fail = [CleanPanic() if meta["must_fail"] == "@PANIC@" else re.compile(meta["must_fail"])] if meta.get("must_fail") else []
         self.nocover = [re.compile(meta["nocover"])] if meta.get("nocover") else []
         self.group = meta.get("group", "")
         self.note = meta.get("note", "")
@@ -414,7 +447,7 @@ def parse_output(r):
         if "RETURNED" in c["desc"] or "VACUITY_WITNESS" in c["desc"]:
             offending.append(c)  # never allowed by a pattern
             continue
-        if any(a.search(key(c)) for a in h.allow):
+        if any(_search(a, key(c), c) for a in h.allow):
             continue
         offending.append(c)
     if "witness" in h.flags:
@@ -432,7 +465,7 @@ def parse_output(r):
         r.verdict, r.reason = "INCONCLUSIVE", "unsupported construct reached: " + key(unsupported[0])[:300]
         return
     for mf in h.must_fail:
-        if not any(mf.search(key(c)) for c in fails):
+        if not any(_search(mf, key(c), c) for c in fails):
             r.verdict, r.reason = "INCONCLUSIVE", "expected failure not observed: " + mf.pattern
             return
     if undet:
